@@ -39,6 +39,7 @@ int vp_sig_default_action[2];              /* delivered to SIG_DFL / SIG_IGN */
 int vp_sig_app_handled[2];                 /* delivered to the application's own handler */
 int vp_sig_lib_handled[2];                 /* delivered to libevent's handler */
 int vp_sig_lib_accepted[2];                /* ... and the self-pipe took the byte */
+int vp_sig_undrained[2];                   /* accepted notifications of A / B not yet read from the self-pipe (independent of the byte values written) */
 int vp_pipe_rfd = -1, vp_pipe_wfd = -1;    /* harness syncs these with base->sig.ev_signal_pair */
 unsigned char vp_pipe_q[VP_PIPE_CAP]; int vp_pipe_n;
 int vp_sig_write_fail_next;                /* next write() on the self-pipe fails with EAGAIN */
@@ -134,7 +135,7 @@ ssize_t read(int fd, void *buf, size_t n)
 		if (m == 0) { errno = EAGAIN; return -1; }
 		VP_ASSERT(n >= VP_PIPE_CAP, "sigmodel: reader's buffer smaller than the modelled pipe");
 		for (i = 0; i < VP_PIPE_CAP; i++) if (i < m) ((unsigned char *)buf)[i] = vp_pipe_q[i];
-		vp_pipe_n = 0;
+		vp_pipe_n = 0; vp_sig_undrained[0] = vp_sig_undrained[1] = 0;
 		return m;
 	}
 	f = vp_sigfd_of(fd);
@@ -189,7 +190,7 @@ static void vp_sig_deliver(int sig)
 		int before = vp_pipe_n;
 		vp_sig_lib_handled[k]++;
 		evsig_handler(sig);
-		if (vp_pipe_n == before + 1) vp_sig_lib_accepted[k]++;
+		if (vp_pipe_n == before + 1) { vp_sig_lib_accepted[k]++; vp_sig_undrained[k]++; }
 		return;
 	}
 #endif
